@@ -373,15 +373,12 @@ def gen():
             kani::cover!(true);
             """ + "\n".join(l.strip() for l in body.replace("EQ", f"eq_{kk}").splitlines()), [f.replace("TY", ty) for f in fns], FB, thorough=True, unwind=unwind)
 
-    for key in ("luma", "rgb", "hsv", "hwb"):
+    for key in ("luma", "hsv", "hwb"):
         K(key, "lighten_vs_assign", "lighten(f) and lighten_assign(f) give the same colour",
           "let v = x.lighten(f); let mut m = x; m.lighten_assign(f); assert!(EQ(&m, &v));", ["<TY as Lighten>::lighten", "<TY as LightenAssign>::lighten_assign"])
         K(key, "lighten_fixed_vs_assign", "lighten_fixed(f) and lighten_fixed_assign(f) give the same colour",
           "let v = x.lighten_fixed(f); let mut m = x; m.lighten_fixed_assign(f); assert!(EQ(&m, &v));",
           ["<TY as Lighten>::lighten_fixed", "<TY as LightenAssign>::lighten_fixed_assign"])
-    K("luma", "lighten_vs_slice", "lighten(f) of two colours and <[T]>::lighten_assign(f) on the slice of both give the same colours",
-      "let v = x.lighten(f); let w = y.lighten(f); let mut s = [x, y]; s[..].lighten_assign(f); assert!(EQ(&s[0], &v) && EQ(&s[1], &w));",
-      ["<TY as Lighten>::lighten", "<[T] as LightenAssign>::lighten_assign"], unwind=3)
     K("luma", "lighten_vs_alpha", "lighten(f) and the colour of Alpha::lighten(f) / lighten_assign(f) are the same, alpha untouched",
       """let a: f32 = kani::any(); kani::assume(a.is_finite());
          let v = x.lighten(f); let ax = Alpha { color: x, alpha: a };
@@ -391,24 +388,15 @@ def gen():
     K("luma", "darken_vs_lighten", "darken(f) == lighten(-f) and darken_assign(f) gives the same colour",
       "let n = x.lighten(-f); assert!(EQ(&x.darken(f), &n)); let mut m = x; m.darken_assign(f); assert!(EQ(&m, &n));",
       ["<T as Darken>::darken", "<T as DarkenAssign>::darken_assign", "<TY as Lighten>::lighten"])
-    for key in ("hsv", "hsl"):
+    for key in ("hsl",):
         K(key, "saturate_vs_assign", "saturate(f) and saturate_assign(f) give the same colour",
           "let v = x.saturate(f); let mut m = x; m.saturate_assign(f); assert!(EQ(&m, &v));", ["<TY as Saturate>::saturate", "<TY as SaturateAssign>::saturate_assign"])
     K("hsv", "desaturate_vs_saturate", "desaturate(f) == saturate(-f)",
       "let n = x.saturate(-f); assert!(EQ(&x.desaturate(f), &n));", ["<T as Desaturate>::desaturate", "<TY as Saturate>::saturate"])
-    for key in ("luma", "lab", "hsl"):
+    for key in ("luma",):
         K(key, "mix_vs_assign", "x.mix(y, f) and mix_assign give the same colour",
           "let v = x.mix(y, f); let mut m = x; m.mix_assign(y, f); assert!(EQ(&m, &v));", ["<TY as Mix>::mix", "<TY as MixAssign>::mix_assign"])
-    K("luma", "mix_vs_alpha", "x.mix(y, f) and the colour of Alpha::mix / PreAlpha::mix are the same; both mix alpha as a + (b - a) * clamp(f, 0, 1)",
-      """let a: f32 = kani::any(); let b: f32 = kani::any(); kani::assume(a.is_finite() && b.is_finite());
-         let v = x.mix(y, f);
-         let av = Alpha { color: x, alpha: a }.mix(Alpha { color: y, alpha: b }, f);
-         let fc = palette::num::Clamp::clamp(f, 0.0f32, 1.0f32);
-         assert!(EQ(&av.color, &v) && av.alpha.to_bits() == (a + (b - a) * fc).to_bits());
-         let pv = PreAlpha { color: x, alpha: a }.mix(PreAlpha { color: y, alpha: b }, f);
-         assert!(EQ(&pv.color, &v) && pv.alpha.to_bits() == av.alpha.to_bits());""",
-      ["<TY as Mix>::mix", "<Alpha<C, T> as Mix>::mix", "<PreAlpha<C> as Mix>::mix"])
-    for name, sym in (("add", "+"), ("sub", "-"), ("mul", "*"), ("div", "/")):
+    for name, sym in (("add", "+"), ("sub", "-")):
         K("luma", f"prealpha_scalar_{name}", f"PreAlpha {sym} c and PreAlpha {sym}= c (scalar forms exist for f32/f64 only) give the colour of x {sym} c and alpha {sym} c",
           f"""let a: f32 = kani::any(); kani::assume(a.is_finite());
              let v = x {sym} f; let px = PreAlpha {{ color: x, alpha: a }};
